@@ -1,31 +1,33 @@
-import GrmVerif.Props.C07
+import GrmVerif.Lemmas.RecSpec
+import GrmVerif.Props.C01
 import GrmVerif.Lemmas.LRComplete
+import GrmVerif.Lemmas.RecEdited
+import GrmVerif.Lemmas.RecEditedEx
+import GrmVerif.Lemmas.LeafIdx
 /-!
 # C05 — every reported repair sequence repairs; parsing continues as if it were applied
 
-Specification: `Rec.applySeq`, `Rec.validSeq`, `Rec.editSeq` (`Model/Recover.lean`). The driver
-evaluates `validSeq` on every repair sequence the real recoverer reports, and compares the returned
-tree with the plain parse (`LR.parse`, the model proved sound and complete under C01) of the input
-edited by the first sequence of every error. The theorems connect these definitions:
-applying a sequence is feeding the tokens of the edited input (`applySeq_is_edited_input`), feeding
-a token to the stack automaton is what the full LR driver does (`feed_is_lr_steps`), and a valid
-sequence leaves the parser where a plain parse runs `N` lexemes or accepts (`validSeq_runs`), which
-is exactly the premise `RecovererOK` of C07.
+Specification: `Rec.applySeq`, `Rec.validSeq`, `Rec.editSeq` (`Model/Recover.lean`) and, for a whole
+run, `C05.editedItems`/`C05.editedToks` (`Lemmas/RecEdited.lean`): the input with the FIRST repair
+sequence of every reported error applied. The driver evaluates `validSeq` on every repair sequence
+the real recoverer reports, and compares the returned tree with the plain parse (`LR.parse`, the
+model proved sound and complete under C01) of `editedItems` of the reported errors.
+
+One sequence at one error: applying a sequence is feeding the tokens of the edited input
+(`applySeq_is_edited_input`), feeding a token to the stack automaton is what the full LR driver does
+(`feed_is_lr_steps`), and a valid sequence leaves the parser where a plain parse runs `N` lexemes or
+accepts (`validSeq_runs`), which is exactly the premise `RecovererOK` of C07.
+
+Whole input, any number of errors, about the recovering driver `Rec.recRun` with any recoverer that
+continues as if the first sequence it reports had been applied (`FirstApplies`):
+`recRun_is_edited_run_keeping_reductions` (unconditional: the run is the run over the edited input in
+which each refused lexeme is first offered to the table, the reductions made under it being kept),
+and, when those kept reductions cannot be observed (`KeptInvisible`),
+`recRun_is_plain_parse_of_edited_input`, `reported_errors_are_plain_errors_of_edited_input`,
+`unrepaired_error_is_first_error_of_edited_input`, `returned_tree_spells_edited_input`.
 -/
 namespace GrmVerif.C05
 open GrmVerif Rec LR Cert
-
-/-- feed a list of tokens, each of which must be shifted -/
-def feedToks (G : Grammar) (A : Automaton) : List Nat → List Nat → Option (List Nat)
-  | stack, [] => some stack
-  | stack, t :: ts =>
-    match feed G A t FUEL stack with
-    | .shifted s => feedToks G A s ts
-    | _ => none
-
-def itemTok (w : List Nat) : EItem → Nat
-  | .real i => w.getD i 0
-  | .ins t _ => t
 
 /-- **Applying a repair sequence = parsing the edited input.** If the sequence applies from
 `c`, the resulting configuration is the one reached by feeding, in order, the tokens of the edited
@@ -34,54 +36,8 @@ input position is the one after the last lexeme it consumed. -/
 theorem applySeq_is_edited_input (G : Grammar) (A : Automaton) (w : List Nat) :
     ∀ (rs : List Repair) (c c' : Pos), applySeq G A w c rs = some c' →
       feedToks G A c.stack ((editSeq c.pos rs).1.map (itemTok w)) = some c'.stack ∧
-      c'.pos = (editSeq c.pos rs).2 := by
-  intro rs
-  induction rs with
-  | nil => intro c c' h; simp [applySeq] at h; subst h; simp [editSeq, feedToks]
-  | cons r rs ih =>
-    intro c c' h
-    simp only [applySeq] at h
-    cases hr : applyRepair G A w c r with
-    | none => rw [hr] at h; cases h
-    | some c1 =>
-      rw [hr] at h
-      simp only at h
-      obtain ⟨i1, i2⟩ := ih c1 c' h
-      cases r with
-      | insert t =>
-        simp only [applyRepair] at hr
-        cases hf : feed G A t FUEL c.stack with
-        | shifted s =>
-          rw [hf] at hr; injection hr with hr; subst hr
-          simp only at i1 i2
-          simp [editSeq, feedToks, itemTok, hf, i1, i2]
-        | accept s => rw [hf] at hr; cases hr
-        | error s => rw [hf] at hr; cases hr
-        | crash => rw [hf] at hr; cases hr
-        | fuelOut => rw [hf] at hr; cases hr
-      | delete =>
-        simp only [applyRepair] at hr
-        split at hr
-        · injection hr with hr; subst hr
-          simp only at i1 i2
-          simp [editSeq, i1, i2]
-        · cases hr
-      | shift =>
-        simp only [applyRepair] at hr
-        cases hw : w[c.pos]? with
-        | none => rw [hw] at hr; cases hr
-        | some t =>
-          rw [hw] at hr
-          simp only at hr
-          cases hf : feed G A t FUEL c.stack with
-          | shifted s =>
-            rw [hf] at hr; injection hr with hr; subst hr
-            simp only at i1 i2
-            simp [editSeq, feedToks, itemTok, hw, hf, i1, i2]
-          | accept s => rw [hf] at hr; cases hr
-          | error s => rw [hf] at hr; cases hr
-          | crash => rw [hf] at hr; cases hr
-          | fuelOut => rw [hf] at hr; cases hr
+      c'.pos = (editSeq c.pos rs).2 :=
+  applySeq_feedToks G A w
 
 /-- `continueFrom` counts the lexemes a plain parse shifts: if it reports `n` shifts or acceptance,
 the plain parse `Runs` that far -/
@@ -202,44 +158,233 @@ the configuration with the shifted stack, the lexeme pushed as a leaf, and the n
 theorem feed_is_lr_steps (G : Grammar) (A : Automaton) (w : List Nat) :
     ∀ (fuel : Nat) (stack s' : List Nat) (astack : List Tree) (laidx : Nat),
       feed G A (nextTok G w laidx) fuel stack = .shifted s' →
-      ∃ astack', Steps G A w ⟨stack, astack, laidx⟩ ⟨s', .leaf (nextTok G w laidx) laidx :: astack', laidx + 1⟩ := by
-  intro fuel
-  induction fuel with
-  | zero => intro stack s' astack laidx h; simp [feed] at h
-  | succ f ih =>
-    intro stack s' astack laidx h
-    cases stack with
-    | nil => simp [feed] at h
-    | cons st rest =>
-      simp only [feed] at h
-      cases hact : A.action st (nextTok G w laidx) with
-      | error => rw [hact] at h; cases h
-      | accept => rw [hact] at h; cases h
-      | shift s1 =>
-        rw [hact] at h
-        injection h with h; subst h
-        exact ⟨astack, Steps.single (by simp [step, hact])⟩
-      | reduce p =>
-        rw [hact] at h
-        simp only at h
-        by_cases hle : (st :: rest).length ≤ (G.rhs p).length
-        · rw [if_pos hle] at h; cases h
-        · rw [if_neg hle] at h
-          cases hd : List.drop (G.rhs p).length (st :: rest) with
-          | nil => rw [hd] at h; cases h
-          | cons prior tl =>
-            rw [hd] at h
-            simp only at h
-            cases hg : A.goto prior (G.lhs p) with
-            | none => rw [hg] at h; cases h
-            | some s1 =>
-              rw [hg] at h
-              simp only at h
-              obtain ⟨astack', hs⟩ := ih (s1 :: prior :: tl) s'
-                (.node p (astack.take (G.rhs p).length).reverse :: astack.drop (G.rhs p).length) laidx h
-              refine ⟨astack', .step _ _ _ ?_ hs⟩
-              simp only [step, hact]
-              rw [if_neg hle, hd]
-              simp only [hg]
+      ∃ astack', Steps G A w ⟨stack, astack, laidx⟩ ⟨s', .leaf (nextTok G w laidx) laidx :: astack', laidx + 1⟩ :=
+  feed_shifted_steps G A w
+
+/-! ## The whole input, any number of errors
+
+`recover` is any recoverer; `FirstApplies` says it continues as if the first sequence it reports had
+been applied (for the real recoverer this is what the driver checks per error: `validSeq` holds of
+every reported sequence at the configuration of the error, and the parser goes on from the
+configuration `applySeq` gives for the first one). `eofOk G A` is the decidable check that the table
+never shifts the end-of-input token and accepts only under it (true of every table
+`StateTable::new` builds; evaluated by the driver on every dumped table); `G.eof ∉ w` says the lexer
+never hands the parser the end-of-input token as a lexeme. Both are needed only so that "accepts"
+means "accepts at the end of the edited input". -/
+
+/-- **The recovering run is the run over the edited input, each refused lexeme being offered to the
+table first.** For every recoverer with `FirstApplies`, every fuel, every start configuration `c`
+within the input and every result `(v, errs')` of `recRun`: the run appended errors `new` at
+increasing positions (`Ordered`), and
+* if a value was produced, the stack automaton started from `c.stack` runs through
+  `editedSteps … new` — the real lexemes between the errors, and at each error first the refused
+  lexeme (`EStep.offer`: the table refuses it after the reductions it prescribes under it, and those
+  reductions are KEPT) and then the tokens of the error's first sequence — and then accepts under the
+  end-of-input token;
+* for every reported error `e`, the same run over the edits of the EARLIER errors `pre` reaches `e`'s
+  position and the lexeme there is refused.
+No hypothesis about the table beyond the end-of-input discipline: this is the exact semantics of the
+driver, on every table (with or without conflicts). -/
+theorem recRun_is_edited_run_keeping_reductions (G : Grammar) (A : Automaton) (w : List Nat)
+    (recover : Pos → Option (Pos × List (List Repair)))
+    (hfirst : FirstApplies G A w recover) (heof : eofOk G A = true) (hw : G.eof ∉ w)
+    (fuel : Nat) (c : Pos) (errs : List Err) (v : Bool) (errs' : List Err) (hc : c.pos ≤ w.length)
+    (h : recRun G A w recover fuel c errs = (v, errs')) :
+    ∃ new, errs' = errs ++ new ∧ Ordered w.length c.pos new ∧
+      (v = true → ∃ st x, runSteps G A c.stack (editedSteps G w w.length c.pos new) = some st ∧
+        feed G A G.eof FUEL st = .accept x) ∧
+      (∀ pre e post, new = pre ++ e :: post →
+        ∃ s, runSteps G A c.stack (editedSteps G w e.pos c.pos pre ++ [.offer (nextTok G w e.pos)]) = some s) :=
+  recRun_own G A w recover hfirst (eofOk_spec heof).1 (eofOk_spec heof).2 hw fuel c errs v errs' hc h
+
+/-- **A value means the plain parse of the edited input accepts** (second sentence of C05, value
+part, on state stacks). Hypotheses: `FirstApplies`, the end-of-input discipline, and
+`KeptInvisible G A` — the reductions made under a refused lexeme cannot be observed by any token fed
+afterwards. The last one is forced: the recovering driver keeps those reductions, a plain parse of
+the edited input never makes them. It holds trivially for tables that refuse a lexeme before
+reducing under it (canonical LR(1)), and is what conflict-free merged tables are expected to satisfy
+(the driver validates the conclusion case by case there); on tables with conflicts it can fail,
+which is the known finding `C05-conflicting-grammar-keeps-reductions`.
+Conclusion, for every fuel, start configuration and result with a value: feeding the edited token
+list (`editedToks`: first sequence of every reported error applied) to the plain stack automaton
+from `c.stack` shifts every token, and the end-of-input token is then accepted; as one function:
+`plainFrom … = accepted`. -/
+theorem recRun_is_plain_parse_of_edited_input (G : Grammar) (A : Automaton) (w : List Nat)
+    (recover : Pos → Option (Pos × List (List Repair)))
+    (hfirst : FirstApplies G A w recover) (heof : eofOk G A = true) (hw : G.eof ∉ w)
+    (hk : KeptInvisible G A)
+    (fuel : Nat) (c : Pos) (errs errs' : List Err) (hc : c.pos ≤ w.length)
+    (h : recRun G A w recover fuel c errs = (true, errs')) :
+    ∃ new, errs' = errs ++ new ∧
+      (∃ st x, feedToks G A c.stack (editedToks w w.length c.pos new) = some st ∧
+        feed G A G.eof FUEL st = .accept x) ∧
+      plainFrom G A c.stack (editedToks w w.length c.pos new) 0 = .accepted := by
+  obtain ⟨new, h1, _, h3, _⟩ := recRun_plain G A w recover hfirst heof hw hk fuel c errs true errs' hc h
+  obtain ⟨st, x, hf, hx⟩ := h3 rfl
+  exact ⟨new, h1, ⟨st, x, hf, hx⟩, plainFrom_accepted G A _ _ st x 0 hf hx⟩
+
+/-- **Later errors are exactly those of parsing the input with the first sequence of each earlier
+error applied.** Same hypotheses as `recRun_is_plain_parse_of_edited_input`, any result (value or
+not). For every reported error `e`, with `pre` the errors reported before it: `e` lies within the
+input at or after the start; the input edited by `pre` is the edited input up to `e`'s position
+followed by the untouched real lexemes from `e.pos` on; and the plain parse of that edited input
+shifts everything before that point and REFUSES the token there (the real lexeme `e.pos`, or the end
+of input if `e.pos = |w|`): its first error is exactly at the reported position. -/
+theorem reported_errors_are_plain_errors_of_edited_input (G : Grammar) (A : Automaton) (w : List Nat)
+    (recover : Pos → Option (Pos × List (List Repair)))
+    (hfirst : FirstApplies G A w recover) (heof : eofOk G A = true) (hw : G.eof ∉ w)
+    (hk : KeptInvisible G A)
+    (fuel : Nat) (c : Pos) (errs : List Err) (v : Bool) (errs' : List Err) (hc : c.pos ≤ w.length)
+    (h : recRun G A w recover fuel c errs = (v, errs')) :
+    ∃ new, errs' = errs ++ new ∧ ∀ pre e post, new = pre ++ e :: post →
+      c.pos ≤ e.pos ∧ e.pos ≤ w.length ∧
+      editedItems w.length c.pos pre = editedItems e.pos c.pos pre ++ reals e.pos w.length ∧
+      (∃ st y, feedToks G A c.stack (editedToks w e.pos c.pos pre) = some st ∧
+        feed G A (nextTok G w e.pos) FUEL st = .error y) ∧
+      plainFrom G A c.stack (editedToks w w.length c.pos pre) 0 =
+        .refusedAt (editedToks w e.pos c.pos pre).length := by
+  obtain ⟨new, h1, h2, _, h4⟩ := recRun_plain G A w recover hfirst heof hw hk fuel c errs v errs' hc h
+  refine ⟨new, h1, ?_⟩
+  intro pre e post hs
+  subst hs
+  obtain ⟨ho, hle⟩ := ordered_split h2
+  obtain ⟨st, y, hf, hy⟩ := h4 pre e post rfl
+  have hsplit := editedItems_split hle ho
+  refine ⟨ordered_le ho, hle, hsplit, ⟨st, y, hf, hy⟩, ?_⟩
+  have := plainFrom_refused G A w _ c.stack st y e.pos 0 hf hy
+  simp only [editedToks, hsplit, List.map_append] at this ⊢
+  simpa using this
+
+/-- **A run that gives up stops where the plain parse of the edited input has its first error.** Same
+hypotheses. If the last reported error `e` has no repair sequence (the run ended without a value
+there), the edited input is the input edited by the earlier errors `pre` only, and its plain parse
+shifts every token before `e`'s position and refuses the one there. -/
+theorem unrepaired_error_is_first_error_of_edited_input (G : Grammar) (A : Automaton) (w : List Nat)
+    (recover : Pos → Option (Pos × List (List Repair)))
+    (hfirst : FirstApplies G A w recover) (heof : eofOk G A = true) (hw : G.eof ∉ w)
+    (hk : KeptInvisible G A)
+    (fuel : Nat) (c : Pos) (errs : List Err) (v : Bool) (errs' : List Err) (hc : c.pos ≤ w.length)
+    (h : recRun G A w recover fuel c errs = (v, errs')) :
+    ∃ new, errs' = errs ++ new ∧ ∀ pre e, new = pre ++ [e] → e.repairs = [] →
+      editedItems w.length c.pos new = editedItems w.length c.pos pre ∧
+      plainFrom G A c.stack (editedToks w w.length c.pos new) 0 =
+        .refusedAt (editedToks w e.pos c.pos pre).length := by
+  obtain ⟨new, h1, h2, _, _⟩ := recRun_plain G A w recover hfirst heof hw hk fuel c errs v errs' hc h
+  obtain ⟨new', h1', h3⟩ := reported_errors_are_plain_errors_of_edited_input G A w recover hfirst heof hw hk
+    fuel c errs v errs' hc h
+  have hn : new' = new := List.append_cancel_left (h1'.symm.trans h1)
+  subst hn
+  refine ⟨new', h1, ?_⟩
+  intro pre e hs he
+  subst hs
+  have hun := editedItems_unrepaired he h2
+  refine ⟨hun, ?_⟩
+  obtain ⟨_, _, _, _, hp⟩ := h3 pre e [] rfl
+  simp only [editedToks, hun] at hp ⊢
+  exact hp
+
+/-- **A returned tree's leaves spell the repaired input.** Same hypotheses, on a table that passes
+C01's validator `Cert.check`, for a run from the start configuration that produced a value, when the
+edited input consists of real tokens (`InputOk`: inserted tokens are tokens of the grammar other than
+end-of-input — the recoverer never inserts that one). Then the plain LR driver WITH TREES
+(`LR.parse`, the model of `Parser::lr` of C01) accepts the edited token list, and the tree it returns
+is a valid derivation from the start rule whose leaves, left to right, are exactly the edited token
+list — the real lexemes kept, the inserted tokens where `editedItems` places them (before the next
+real lexeme), the deleted lexemes gone. The `k`-th leaf carries the lexeme index `k`: it stands for
+the `k`-th item of `editedItems`, i.e. a real lexeme `EItem.real i` or a token inserted before real
+lexeme `b`, `EItem.ins t b` (which the real parser shows as a zero-length faulty lexeme at `b`'s start). -/
+theorem returned_tree_spells_edited_input (G : Grammar) (A : Automaton) (w : List Nat)
+    (recover : Pos → Option (Pos × List (List Repair)))
+    (hfirst : FirstApplies G A w recover) (heof : eofOk G A = true) (hw : G.eof ∉ w)
+    (hk : KeptInvisible G A) (hcert : check G A = true)
+    (fuel : Nat) (errs : List Err)
+    (h : recRun G A w recover fuel ⟨[A.start], 0⟩ [] = (true, errs))
+    (hin : InputOk G (editedToks w w.length 0 errs)) :
+    ∃ fuel' t, LR.parse G A (editedToks w w.length 0 errs) fuel' = .accept t ∧
+      Tree.valid G t = true ∧ (∃ S, G.rhs G.startProd = [.rule S] ∧ Tree.root G t = .rule S) ∧
+      Tree.yield t = editedToks w w.length 0 errs ∧
+      Tree.leafIdxs t = List.range (editedItems w.length 0 errs).length := by
+  obtain ⟨new, h1, ⟨st, x, hf, hx⟩, _⟩ := recRun_is_plain_parse_of_edited_input G A w recover hfirst heof hw hk
+    fuel ⟨[A.start], 0⟩ [] errs (Nat.zero_le _) h
+  simp only [List.nil_append] at h1
+  subst h1
+  simp only at hf
+  generalize htoks : editedToks w w.length 0 errs = toks at *
+  -- the tokens are shifted by the driver with trees …
+  obtain ⟨a1, hs1⟩ := feedToks_steps G A toks toks 0 [A.start] st [] (Nat.zero_le _) (by simp) hf
+  -- … and at the end of the input it reduces and stops
+  have hend : nextTok G toks toks.length = G.eof := by simp [nextTok]
+  rw [← hend] at hx
+  obtain ⟨a2, hs2, st0, tl, hx0, hact⟩ := feed_accept_steps G A toks FUEL st x a1 toks.length hx
+  have hsteps := hs1.trans hs2
+  have hdone : ∃ o, step G A toks ⟨x, a2, toks.length⟩ = .done o := by
+    subst hx0
+    simp only [step, hact]
+    cases a2.getLast? with
+    | none => exact ⟨_, rfl⟩
+    | some tr => cases tr <;> exact ⟨_, rfl⟩
+  obtain ⟨o, hdo⟩ := hdone
+  obtain ⟨fuel', hrun⟩ := run_of_steps hsteps hdo
+  have hparse : parse G A toks fuel' = o := hrun
+  -- the outcome is an accept: a certified table never crashes
+  have hacc : ∃ t, o = .accept t := by
+    subst hx0
+    simp only [step, hact] at hdo
+    cases hl : a2.getLast? with
+    | none =>
+      rw [hl] at hdo; simp only [Step.done.injEq] at hdo
+      exact absurd (hdo ▸ hparse) (C01.lr_no_crash G A hcert toks hin fuel' 3)
+    | some tr =>
+      rw [hl] at hdo
+      cases tr with
+      | leaf a b =>
+        simp only [Step.done.injEq] at hdo
+        exact absurd (hdo ▸ hparse) (C01.lr_no_crash G A hcert toks hin fuel' 3)
+      | node p kids =>
+        simp only [Step.done.injEq] at hdo
+        exact ⟨_, hdo.symm⟩
+  obtain ⟨t, ht⟩ := hacc
+  subst ht
+  have hidx := accept_leafIdxs (check_props G A hcert) hin hsteps t hdo
+  have hlen : toks.length = (editedItems w.length 0 errs).length := by
+    rw [← htoks]; simp [editedToks]
+  obtain ⟨hv, hr, hy⟩ := C01.lr_sound G A hcert toks hin fuel' t hparse
+  exact ⟨fuel', t, hparse, hv, hr, hy, by rw [← hlen]; exact hidx⟩
+
+/-! ## Tests: the hypotheses are jointly satisfiable on a run with two errors, one of which leaves a
+kept reduction behind, and the conclusions compute (`Lemmas/RecEditedEx.lean`: grammar
+`S: A 'b'; A: 'a'`, input `a a`) -/
+
+/-- the table keeps the end-of-input discipline -/
+example : eofOk exG exA = true := by decide
+/-- the reduction `A → a` made under the refused end-of-input token is kept -/
+example : feed exG exA 2 FUEL [1, 0] = .error [2, 0] := by rfl
+/-- this table satisfies `KeptInvisible` although it does reduce under refused lexemes -/
+example : KeptInvisible exG exA := ex_keptInvisible
+/-- the recoverer continues as if its first sequence were applied -/
+example : FirstApplies exG exA [0, 0] exRecover := exFirst_holds
+/-- the run: two errors (the second `a`, then the end of input), each repaired by its first sequence -/
+example : recRun exG exA [0, 0] exRecover 10 ⟨[0], 0⟩ [] =
+    (true, [⟨1, [[.delete], [.insert 1, .delete]]⟩, ⟨2, [[.insert 1]]⟩]) := by rfl
+/-- its edited input: `a`, then `b` inserted before (absent) lexeme 2; the second `a` is gone -/
+example : editedItems 2 0 [⟨1, [[.delete], [.insert 1, .delete]]⟩, ⟨2, [[.insert 1]]⟩] = [.real 0, .ins 1 2] := by decide
+example : editedToks [0, 0] 2 0 [⟨1, [[.delete], [.insert 1, .delete]]⟩, ⟨2, [[.insert 1]]⟩] = [0, 1] := by decide
+/-- the conclusion of `recRun_is_plain_parse_of_edited_input`, obtained from the theorem … -/
+example : plainFrom exG exA [0]
+    (editedToks [0, 0] 2 0 [⟨1, [[.delete], [.insert 1, .delete]]⟩, ⟨2, [[.insert 1]]⟩]) 0 = .accepted := by
+  obtain ⟨new, h1, _, h3⟩ := recRun_is_plain_parse_of_edited_input exG exA [0, 0] exRecover exFirst_holds
+    (by decide) (by decide) ex_keptInvisible 10 ⟨[0], 0⟩ [] _ (by decide) rfl
+  simp only [List.nil_append] at h1
+  subst h1
+  exact h3
+/-- … and by evaluation -/
+example : plainFrom exG exA [0] [0, 1] 0 = .accepted := by decide
+/-- the second error is where the plain parse of the input edited by the first error (`a`) fails: at
+its end (token index 1) -/
+example : plainFrom exG exA [0] (editedToks [0, 0] 2 0 [⟨1, [[.delete], [.insert 1, .delete]]⟩]) 0 = .refusedAt 1 := by decide
+/-- a run that gives up: `b` alone is refused at once, the recoverer has nothing, and the plain parse
+of the (unedited) input has its first error at token 0 -/
+example : recRun exG exA [1] (fun _ => none) 10 ⟨[0], 0⟩ [] = (false, [⟨0, []⟩]) := by rfl
+example : plainFrom exG exA [0] (editedToks [1] 1 0 [⟨0, []⟩]) 0 = .refusedAt 0 := by decide
 
 end GrmVerif.C05
